@@ -154,6 +154,16 @@ func (ev *SpecEval) eval(e *SExpr) SVal {
 		}
 		return SVal{V: Exists(vars, body), T: boolT}
 	case "field":
+		if e.Args[0].Kind == "ident" {
+			// pkg.Name: a package-level constant or variable
+			if _, isName := ev.names[e.Args[0].Name]; !isName {
+				if _, isBound := ev.bound[e.Args[0].Name]; !isBound {
+					if v, t, ok := ev.vc.prog.lookupGlobal(e.Args[0].Name+"."+e.Name, ev.contextPkg(), ev.cur); ok {
+						return SVal{V: v, T: t}
+					}
+				}
+			}
+		}
 		return ev.field(ev.eval(e.Args[0]), e.Name, e)
 	case "index":
 		return ev.index(ev.eval(e.Args[0]), ev.term(e.Args[1]), e)
@@ -438,6 +448,11 @@ func (ev *SpecEval) callSpec(e *SExpr) SVal {
 			alts = append(alts, And(cs...))
 		}
 		return SVal{V: Or(alts...), T: boolT}
+	case "store": // store(array, index, value)
+		a := ev.term(e.Args[0])
+		i := ev.term(e.Args[1])
+		v := ev.term(e.Args[2])
+		return SVal{V: Store(a, i, v), T: types.Typ[types.UnsafePointer]}
 	case "strslice": // strslice(base, len): a []string value
 		b := ev.term(e.Args[0])
 		n := ev.term(e.Args[1])
